@@ -58,39 +58,50 @@ THEOREMS = ['C16_split_flags_star', 'C16_split_flags_plus',
             'C16_bc_designates_present_same_locus_linked',
             'C16_bc_entries_designate_written_linked',
             'C16_conflicting_flags_rejected_linked',
-            'C16_bc_designates_present_same_locus_cells_linked']
+            'C16_bc_designates_present_same_locus_cells_linked',
+            'C16_rep_is_C13_renumbering_linked',
+            'C16_bc_designates_present_same_locus_all_linked']
 TRUSTED = [
-    'hand-written model coq/C16/Model.v (modelled, tied by execution only)',
-    'surfaces are abstract in the model: a descriptor class stands for '
-    'SurfaceT4.__eq__ (type, parameters, transform); the harness assigns the '
-    'classes from a hand-written table of canonical TRIPOLI-4 forms and the '
-    'tie compares them with the written SURF lines',
-    'cells of the model are intersections of signed surface numbers (single '
-    'surfaces with either sense, one-sheet cones and macrobodies with the '
-    'either sense: pot_expand_surfs, a positive one gives a UNION volume), '
-    'optionally with a TRCL (descriptor '
-    'classes and sides of each transformed copy are supplied by the harness '
-    'from a hand-written rigid-motion table: translations and quarter-turn '
-    'rotations in the tie stream); unions written with `:`, complements, FILL '
-    'copies and TR on surface cards are covered by the oracle sweep and, at '
-    'the level of the volume table, by the theorems linked with C13',
-    'the union helper planes (two PLANEX ids above every other id) are not in '
-    'the model: intersection-only cells never use them and they can never be '
-    'the smallest of a duplicate group',
+    'hand-written executable model coq/C16/Model.v (modelled, tied by '
+    'execution only); the models of C01 (cell cards -> volume table, pruning) '
+    'and C13 (SurfaceT4.__eq__ over the reals, de-duplication) that the '
+    '_linked theorems import are trusted as tied by those properties',
+    'in the executable model a descriptor CLASS stands for a SurfaceT4 '
+    'descriptor; the harness assigns the classes from a hand-written table of '
+    'canonical TRIPOLI-4 forms (and a hand-written rigid-motion table for '
+    'TRCL copies: translations and quarter-turn rotations) and the tie '
+    'compares them with the written SURF lines.  What is assumed of that '
+    'table is only that it names real descriptors injectively: then '
+    'C16_rep_is_C13_renumbering_linked identifies the de-duplication on '
+    'classes with C13\'s on real descriptors',
+    'the executable model covers cells that are intersections of signed '
+    'surface numbers (single surfaces and collections, either sense), TRCL, '
+    'importance 0, 1000*cell+surface; unions written with `:`, complements, '
+    'cell references and the FILL development are covered by the oracle '
+    'sweep and by the theorems linked with C13 (any volume table) and C01 '
+    '(any cell cards); TR on surface cards: oracle sweep only',
+    'the union helper planes are not in the executable model (cells of its '
+    'fragment never use them and they can never be the smallest of a '
+    'duplicate group); the linked theorems carry them explicitly',
     'harness: generators, impl.T4File reader, mcnpref/t4eval sense functions, '
-    'PEG shim replacing TatSu',
+    'the evaluation of CPython\'s set order for the implicit surfaces, PEG '
+    'shim replacing TatSu',
 ]
 ASSUMPTIONS = [
     'surface numbers are decimal digits (the card regex guarantees it)',
     'C16_bc_designates_present_same_locus has no guard beyond the property\'s '
-    'own "bounds a converted cell" (a cell that survives remove_empty_volumes); '
+    'own "bounds a converted cell": in the executable fragment a surviving '
+    'cell whose card names the surface; in the linked theorems bounds_cell '
+    '(two points differing only on the surface, one in the cell, one not); '
     'the designated SURF is the representative of the flagged surface under '
-    'de-duplication (same descriptor, hence same locus)',
+    'de-duplication, kept with the same descriptor over the reals',
     'coincident surfaces flagged * and + whose representative is written are '
     'refused with a ValueError (C16_conflicting_flags_rejected); the oracle '
     'accepts that refusal only when it finds such a pair numerically',
     'a macrobody with a single facet (SPH) is not rejected by the code: it is '
     'converted like the sphere S and its entry designates the right surface',
+    'not composed: C13\'s pot_fill model feeding C01\'s convert_cells; '
+    'C16\'s executable fragment vs C01\'s pipeline on that fragment',
 ]
 HEADER = ('From Coq Require Import List NArith ZArith Bool String Ascii.\n'
           'From T4V Require Import Base.Str C16.Model C16.Exec.\n'
@@ -882,6 +893,13 @@ def corpus_decks():
                          [{'id': 1, 'lits': [-1, 7, 2], 'imp': 1},
                           {'id': 2, 'lits': [-1, 8, 3, 2], 'imp': 1},
                           {'id': 3, 'lits': [1], 'imp': 0}]), args))
+    # a flagged macrobody: NotImplementedError
+    body = {'id': 5, 'flag': '*', 'text': MULTI[2][0], 'mcnp': MULTI[2][1],
+            'cls': CLASS_OF[MULTI[2][2][0]],
+            'aux': [CLASS_OF[f_] for f_ in MULTI[2][2][1:]],
+            'sides': MULTI[2][3], 'single': False, 'locus': None, 'pool': None}
+    out.append((deck([card(1, '', 8), body],
+                     [{'id': 1, 'lits': [-1], 'imp': 1}, skip]), []))
     # one-sheet cone (two TRIPOLI-4 parts) flagged, weird flag after a star
     cone = {'id': 6, 'flag': '+', 'text': 'kz 0 1 1', 'mcnp': 1,
             'cls': CLASS_OF[('CONEZ', (0.0, 0.0, 0.0, 45.0))],
@@ -1199,7 +1217,13 @@ def run(res, tier, seed, proofs_ok):
     corpus = [(witness(kind), args)
               for kind in ('dedup', 'unused', 'trcl', 'trclcopy', 'trclskipped')
               for args in ([], ['--skip-deduplication'])] + corpus_decks()
+    import c16_cov
+    cov = c16_cov.LineCov(c16_cov.anchored_functions())
+    cov_upto = 150                  # traced conversions: corpus + first decks
+    cov.__enter__()
     for i in range(-len(corpus), n_valid + n_bad):
+        if i == cov_upto:
+            cov.__exit__()
         if i < 0:                   # fixed corpus first (not counted below)
             deck, args = corpus[i]
         else:
@@ -1240,6 +1264,15 @@ def run(res, tier, seed, proofs_ok):
     res.extra['guard'] = {'flagged decks converted (theorems apply, no '
                           'guard)': inside,
                           'of which with a non-empty block': outside}
+    total, missing = cov.missing(c16_cov.UNREACHABLE)
+    res.obligation(f'line coverage ({total} lines of get_surfaces, '
+                   'recuperateBoundaryCondition, conversionBoundCond, '
+                   'writeT4BoundCond, remove_duplicate_surfaces, '
+                   'renumber_surfaces, number_items, transformation, '
+                   'extract_tr_surf_ids, remove_unused_volumes by the first '
+                   f'{cov_upto + len(corpus)} tied conversions)',
+                   not missing, '; '.join(f'{n}:{ln} {t}' for n, ln, t in
+                                          missing[:8]))
     bad, errs = common.run_case_files('c16_run', HEADER, 'run_w_case',
                                       'check_run_w', cases)
     res.obligation(f'tie:run ({len(cases)} conversions: Model.run = SURF ids/'
